@@ -304,6 +304,28 @@ def m_reversed(I, it):
 def m_list(I, it=()):
     return list(I.iterate(it))
 
+@model(builtins.dict)
+def m_dict(I, *args, **kw):
+    # copying / building a dict never compares or hashes the *values*
+    if args and isinstance(args[0], Sym):
+        _raise(I, TypeError("object is not iterable"))
+    try:
+        return dict(*args, **kw)
+    except Exception as e:
+        _raise(I, e)
+
+@model(builtins.set, builtins.frozenset)
+def m_set(I, it=()):
+    if isinstance(it, dict):
+        return set(it.keys())
+    vals = I.iterate(it)
+    if any(isinstance(v, Sym) for v in vals):
+        raise Unsupported("set() of symbolic members")
+    try:
+        return set(vals)
+    except Exception as e:
+        _raise(I, e)
+
 @model(builtins.tuple)
 def m_tuple(I, it=()):
     return tuple(I.iterate(it))
